@@ -160,6 +160,7 @@ func init() {
 		canon: func(v *info.Identity) string { return canonIdent(*v) },
 	})
 	register(spec[disco.Info]{name: "disco.Info",
+		witnesses: []disco.Info{{Form: []form.Data{*form.New(form.Result, form.Hidden("FORM_TYPE", form.Value("urn:xmpp:dataforms:softwareinfo")), form.Text("os", form.Value("Linux")))}}},
 		gen: func(g *gen) disco.Info {
 			i := disco.Info{InfoQuery: disco.InfoQuery{Node: g.opt()}}
 			for n := g.count(4); n > 0; n-- {
@@ -297,6 +298,7 @@ func init() {
 		rtNote: "year-outside-0000-9999",
 	})
 	register(spec[stanza.Delay]{name: "stanza.Delay",
+		witnesses: []stanza.Delay{{Stamp: time.Date(2020, 1, 2, 3, 4, 5, 0, time.UTC)}},
 		gen: func(g *gen) stanza.Delay {
 			t := g.time(false)
 			if g.r.Chance(1, 40) {
@@ -395,6 +397,7 @@ func init() {
 		valid: func(v *receipts.Requested) bool { return true },
 	})
 	register(spec[styling.Unstyled]{name: "styling.Unstyled",
+		witnesses: []styling.Unstyled{{Value: false}},
 		gen:        func(g *gen) styling.Unstyled { return styling.Unstyled{Value: g.r.Bool()} },
 		marshalVal: true, marshalPtr: true,
 		tr:    func(v *styling.Unstyled) xml.TokenReader { return v.TokenReader() },
@@ -503,6 +506,7 @@ func init() {
 
 	// ---- message archive management ---------------------------------------------------------
 	register(spec[history.Query]{name: "history.Query",
+		witnesses: []history.Query{{PageID: "p"}, {PageID: "p", Last: true}, {Start: time.Date(2020, 1, 2, 3, 4, 5, 600000000, time.UTC)}, {End: time.Date(2020, 1, 2, 3, 4, 5, 1, time.UTC)}},
 		gen: func(g *gen) history.Query {
 			q := history.Query{ID: g.opt(), With: g.jid(), Start: g.time(true), End: g.time(true), BeforeID: g.opt(), AfterID: g.opt(),
 				Limit: g.u64(), Last: g.r.Bool(), PageID: g.opt(), Reverse: g.r.Bool()}
@@ -558,6 +562,7 @@ func init() {
 		return muc.Item{JID: g.jid(), Affiliation: muc.Affiliation(g.r.Intn(5)), Nick: g.opt(), Role: muc.Role(g.r.Intn(4)), Reason: g.opt()}
 	}
 	register(spec[muc.Item]{name: "muc.Item",
+		witnesses: []muc.Item{{Affiliation: muc.AffiliationOwner}, {Role: muc.RoleModerator}},
 		gen:        genMucItem,
 		marshalVal: true, marshalPtr: true,
 		dec:   true,
@@ -720,6 +725,7 @@ func init() {
 
 	// ---- bits of binary, file metadata, hashes, trust messages -----------------------------------
 	register(spec[bin.Data]{name: "bin.Data",
+		witnesses: []bin.Data{{Data: []byte("A")}, {Data: []byte("AB"), Type: "text/plain"}},
 		gen: func(g *gen) bin.Data {
 			ages := []time.Duration{0, time.Second, 90 * time.Second, 86400 * time.Second, 1500 * time.Millisecond}
 			return bin.Data{CID: g.opt(), MaxAge: ages[g.r.Intn(len(ages))], NoCache: g.r.Chance(1, 4), Type: g.opt(), Data: g.bytes()}
@@ -742,6 +748,7 @@ func init() {
 		},
 	})
 	register(spec[file.Meta]{name: "file.Meta",
+		witnesses: []file.Meta{{Name: "f"}, {Name: "f", Date: time.Date(2020, 1, 2, 3, 4, 5, 600000000, time.UTC), Hash: crypto.HashOutput{Hash: crypto.SHA256, Out: []byte{1, 2}}}},
 		gen: func(g *gen) file.Meta {
 			m := file.Meta{MediaType: g.text(), Name: g.text(), Date: g.time(true), Size: g.u64(), Width: g.u64(), Height: g.u64(), Length: g.u64()}
 			if !g.r.Chance(1, 6) {
@@ -767,6 +774,7 @@ func init() {
 		canon: func(v *crypto.Hash) string { return (&kv{}).s("hash", v.String()).String() },
 	})
 	register(spec[crypto.HashOutput]{name: "crypto.HashOutput",
+		witnesses: []crypto.HashOutput{{Hash: crypto.SHA1}},
 		gen:        func(g *gen) crypto.HashOutput { return crypto.HashOutput{Hash: g.hash(), Out: g.bytes()} },
 		marshalVal: true, marshalPtr: true,
 		tr:    func(v *crypto.HashOutput) xml.TokenReader { return v.TokenReader() },
